@@ -214,6 +214,39 @@ static void long_match(void)
 	xp_sample("long names: total 250..255, domain (upper/lower) preceded by '.', 'a' or '*', data labels of 63");
 }
 
+
+/* every byte value at every position: names that match (and near misses) with one character replaced by each byte 1..255.
+ * The small alphabet above cannot tell a comparison that looks at the characters from one that looks at some of their
+ * bits only (seeded C17-h: bit 5 ignored for every byte, so 0x0e passes for '.', 0x0d for '-', 0x10 for '0'). */
+static const char *BYTE_DOMAINS[] = { "a-b.a", "0.a.b", "t9.example-0.com", "*.a-b.b", "*.0.a", "A.b", "*.Z9.org" };
+static void byte_match(void)
+{
+	char base[3][80], q[80];
+	long n = 0;
+	for (unsigned d = 0; d < sizeof BYTE_DOMAINS / sizeof BYTE_DOMAINS[0]; d++) {
+		const char *dom = BYTE_DOMAINS[d];
+		int dl = strlen(dom);
+		char conc[64];
+		if (dom[0] == '*') snprintf(conc, sizeof conc, "w%s", dom + 1); else snprintf(conc, sizeof conc, "%s", dom);
+		snprintf(base[0], sizeof base[0], "xy.%s", conc);      /* data + domain */
+		snprintf(base[1], sizeof base[1], "%s", conc);         /* the domain itself */
+		snprintf(base[2], sizeof base[2], "x0-%s", conc);      /* no label boundary in front of the domain */
+		for (int b = 0; b < 3; b++) {
+			int bl = strlen(base[b]);
+			for (int p = 0; p < bl; p++)
+				for (int c = 1; c < 256; c++) {
+					memcpy(q, base[b], bl + 1);
+					q[p] = (char)c;
+					if (strstr(q, "..")) continue;
+					check_match(q, bl, dom, dl);
+					n++;
+				}
+		}
+	}
+	xp_count(K_LONG, n);
+	xp_sample("byte family: 3 base names x %d domains, each position replaced by every byte 1..255 (%ld names)", (int)(sizeof BYTE_DOMAINS / sizeof BYTE_DOMAINS[0]), n);
+}
+
 /* ---- dispatch through the real server loop: forwarded iff not matched ---- */
 static struct sockaddr_storage peer; static socklen_t peerlen;
 
@@ -294,7 +327,7 @@ static void job(int j)
 	else if (j < 15) {
 		for (int n = 0; n <= mmax; n++) enum_strings(n, j - 8, fn_match);
 		if (j == 8) xp_sample("matching: all names of length 0..%d over {a,A,b,-,.,*,0} without '..' x %d domains, e.g. query_datalen(\"a.A.b\", \"*.a.b\")", mmax, NDOM);
-	} else if (j == 15) long_match();
+	} else if (j == 15) { long_match(); byte_match(); }
 	else if (j >= 16 + NDOM) pairs_job(j - 16 - NDOM);
 	else {
 		int d = j - 16;
